@@ -81,7 +81,8 @@ fn to_object(t: &T) -> Object {
         T::Ref(n, g) => Object::Reference(ObjectId::new(*n, *g)),
     }
 }
-/// the library's own (Latin-1) view for the incremental writer: a name is the chars <= 0xFF
+/// the parsed-object view for the incremental writer: a name is any Rust String (since
+/// fix_name_utf8 a parsed name can hold any char, not only chars <= 0xFF)
 fn to_pdfobject(t: &T) -> PdfObject {
     match t {
         T::Null => PdfObject::Null,
@@ -114,8 +115,9 @@ pub fn millionths(f: f64) -> String {
         d.into()
     }
 }
-fn latin1(s: &str) -> Vec<u8> {
-    s.chars().map(|c| if (c as u32) < 256 { c as u32 as u8 } else { b'?' }).collect()
+/// how a name String crosses into Coq, on BOTH sides (source names and parsed names): its UTF-8 bytes
+fn name_utf8(s: &str) -> Vec<u8> {
+    s.as_bytes().to_vec()
 }
 
 /// Coq term of the source value.  `name_bytes` says how a name String is seen as bytes.
@@ -150,7 +152,7 @@ pub fn coq_pobj(o: &PdfObject) -> Option<String> {
             format!("PReal {} (Some {})", coq_bool(f.is_sign_negative()), millionths(*f))
         }
         PdfObject::String(s) => format!("PStr {}", coq_bytes(&s.0)),
-        PdfObject::Name(n) => format!("PName {}", coq_bytes(&latin1(&n.0))),
+        PdfObject::Name(n) => format!("PName {}", coq_bytes(&name_utf8(&n.0))),
         PdfObject::Array(a) => {
             let mut v = vec![];
             for x in &a.0 {
@@ -159,7 +161,7 @@ pub fn coq_pobj(o: &PdfObject) -> Option<String> {
             format!("PArr {}", coq_list(v))
         }
         PdfObject::Dictionary(d) => {
-            let mut es: Vec<(Vec<u8>, &PdfObject)> = d.0.iter().map(|(k, v)| (latin1(&k.0), v)).collect();
+            let mut es: Vec<(Vec<u8>, &PdfObject)> = d.0.iter().map(|(k, v)| (name_utf8(&k.0), v)).collect();
             es.sort_by(|a, b| a.0.cmp(&b.0));
             let mut v = vec![];
             for (k, x) in es {
@@ -203,13 +205,8 @@ fn prints_as_int(t: &T) -> Option<i128> {
 }
 pub fn flaws(t: &T, out: &mut Vec<&'static str>) {
     match t {
-        T::Name(n) => {
-            // names are #XX-escaped since fix_name_escape: white space, delimiters, '#' are no flaw any more;
-            // what is left is the reader's one-char-per-byte String for non-ASCII names
-            if !n.is_ascii() {
-                out.push("name-nonascii")
-            }
-        }
+        // names are #XX-escaped since fix_name_escape (white space, delimiters, '#' are no flaw) and read as UTF-8
+        // since fix_name_utf8 (non-ASCII is no flaw either): no name is a flaw any more
         T::Real(f) => {
             if !f.is_finite() {
                 out.push("real-nonfinite")
@@ -239,10 +236,7 @@ pub fn flaws(t: &T, out: &mut Vec<&'static str>) {
             }
         }
         T::Dict(l) => {
-            for (k, v) in l {
-                if !k.is_ascii() {
-                    out.push("name-nonascii")
-                }
+            for (_, v) in l {
                 flaws(v, out)
             }
         }
@@ -288,6 +282,34 @@ pub fn gen_regular_name(r: &mut Rng) -> String {
         }
     }
     s
+}
+/// a char whose UTF-8 form has exactly `nbytes` bytes (2: U+0080..U+07FF, 3: U+0800..U+FFFF without surrogates,
+/// 4: U+10000..U+10FFFF), boundaries over-weighted
+pub fn gen_utf8_char(r: &mut Rng, nbytes: usize) -> char {
+    let (lo, hi, edges): (u32, u32, &[u32]) = match nbytes {
+        2 => (0x80, 0x7FF, &[0x80, 0x9F, 0xA0, 0xE9, 0xFF, 0x100, 0x7FF]),
+        3 => (0x800, 0xFFFF, &[0x800, 0xFFF, 0x1000, 0x4E2D, 0xCFFF, 0xD000, 0xD7FF, 0xE000, 0xFEFF, 0xFFFD, 0xFFFF]),
+        _ => (0x10000, 0x10FFFF, &[0x10000, 0x1F600, 0x3FFFF, 0x40000, 0xFFFFF, 0x100000, 0x10FFFF]),
+    };
+    loop {
+        let c = if r.chance(1, 3) { *r.pick(edges) } else { r.range(lo as u64, hi as u64) as u32 };
+        if let Some(ch) = char::from_u32(c) {
+            return ch;
+        }
+    }
+}
+/// a name with at least one char of the given UTF-8 length, mixed with regular and irregular ASCII
+pub fn gen_utf8_name(r: &mut Rng, nbytes: usize) -> String {
+    let base = if r.chance(1, 3) { gen_irregular_name(r) } else { gen_regular_name(r) };
+    let mut cs: Vec<char> = base.chars().collect();
+    if cs.len() == 1 && cs[0] == 'R' && r.chance(1, 2) {
+        cs.clear();
+    }
+    for _ in 0..r.range(1, 3) {
+        let pos = r.below(cs.len() as u64 + 1) as usize;
+        cs.insert(pos, gen_utf8_char(r, nbytes));
+    }
+    cs.into_iter().collect()
 }
 /// any name: one third with white space / a delimiter / '#' (escaped by the writer since fix_name_escape)
 pub fn gen_any_name(r: &mut Rng) -> String {
@@ -462,6 +484,7 @@ fn fix_collisions(l: &mut Vec<T>) {
 
 fn flawed_tree(r: &mut Rng, kind: &str) -> T {
     let bad = match kind {
+        // no flaw any more (fix_name_utf8): kept as a generator of trees with at least one non-ASCII name
         "name-nonascii" => T::Name(loop {
             let n = gen_any_name(r);
             if !n.is_ascii() {
@@ -531,7 +554,7 @@ fn emit_ser(out: &mut Out, t: &T, class: &str) {
                 return;
             }
         };
-        let coq = format!("({}, {}, {})", coq_obj(t, &|s| s.as_bytes().to_vec()), coq_bytes(&bytes), coq_opt(parsed.map(|p| format!("({p})"))));
+        let coq = format!("({}, {}, {})", coq_obj(t, &|s| name_utf8(s)), coq_bytes(&bytes), coq_opt(parsed.map(|p| format!("({p})"))));
         let mut js = js_base.clone();
         js["serializer"] = json!(which);
         js["flaws"] = json!(fl);
@@ -559,14 +582,10 @@ fn emit_incr(out: &mut Out, t: &T, class: &str) {
             return;
         }
     };
-    let coq = format!("({}, {}, {})", coq_obj(t, &|s| latin1(s)), coq_bytes(&bytes), coq_opt(parsed.map(|p| format!("({p})"))));
+    let coq = format!("({}, {}, {})", coq_obj(t, &|s| name_utf8(s)), coq_bytes(&bytes), coq_opt(parsed.map(|p| format!("({p})"))));
     let mut js = js_base;
     let mut fl = vec![];
     flaws(t, &mut fl);
-    fl.retain(|f| *f != "name-nonascii"); // same root cause, recorded for this writer as incr-nonascii-name below
-    if has_nonascii_name(t) {
-        fl.push("incr-nonascii-name");
-    }
     fl.sort();
     fl.dedup();
     js["flaws"] = json!(fl);
@@ -739,6 +758,104 @@ fn gen_lex_text(r: &mut Rng) -> Vec<u8> {
     s
 }
 
+/// token text of ONE name whose decoded bytes are `bytes`: every byte raw or as #XX (either hex case);
+/// bytes read_name would stop at, and '#', are always escaped
+fn name_token(r: &mut Rng, bytes: &[u8]) -> Vec<u8> {
+    let mut s = vec![b'/'];
+    for &b in bytes {
+        let must = b.is_ascii_whitespace() || b"/<>[]()%#".contains(&b);
+        if must || r.chance(1, 2) {
+            let h = if r.chance(1, 3) { format!("#{:02x}", b) } else { format!("#{:02X}", b) };
+            s.extend(h.as_bytes());
+        } else {
+            s.push(b);
+        }
+    }
+    s
+}
+/// decoded name bytes that are NOT valid UTF-8 (Rust's from_utf8 is only used to label the case):
+/// stray continuation, lead byte at the end or before a non-continuation, surrogates ED A0..BF, overlongs
+/// C0/C1, E0 80..9F, F0 80..8F, F4 90.. (> U+10FFFF), F5..FF, truncated 3-/4-byte sequences, a valid
+/// sequence next to one bad byte (the WHOLE name then keeps the Latin-1 view)
+fn gen_invalid_utf8(r: &mut Rng) -> Vec<u8> {
+    loop {
+        let mut v: Vec<u8> = vec![];
+        for _ in 0..r.below(3) {
+            v.push(*r.pick(REG_NAME_CHARS));
+        }
+        let cont = |r: &mut Rng| r.range(0x80, 0xBF) as u8;
+        match r.below(13) {
+            0 => v.push(cont(r)),
+            1 => v.push(r.range(0xC2, 0xF4) as u8),
+            2 => {
+                v.push(r.range(0xC2, 0xDF) as u8);
+                v.push(*r.pick(b"A\x00\xC0\xFF\x7F"));
+            }
+            3 => v.extend([0xED, r.range(0xA0, 0xBF) as u8, cont(r)]),
+            4 => v.extend([r.range(0xC0, 0xC1) as u8, cont(r)]),
+            5 => v.extend([0xE0, r.range(0x80, 0x9F) as u8, cont(r)]),
+            6 => v.extend([0xF0, r.range(0x80, 0x8F) as u8, cont(r), cont(r)]),
+            7 => v.extend([0xF4, r.range(0x90, 0xBF) as u8, cont(r), cont(r)]),
+            8 => v.extend([r.range(0xF5, 0xFF) as u8, cont(r), cont(r), cont(r)]),
+            9 => v.extend([r.range(0xE1, 0xEC) as u8, cont(r)]),
+            10 => v.extend([r.range(0xF1, 0xF3) as u8, cont(r), cont(r)]),
+            11 => {
+                let n = r.range(2, 4) as usize;
+                v.extend(gen_utf8_char(r, n).to_string().as_bytes());
+                v.push(r.range(0xA0, 0xFF) as u8);
+            }
+            _ => {
+                v.push(r.range(0xA0, 0xFF) as u8);
+                let n = r.range(2, 4) as usize;
+                v.extend(gen_utf8_char(r, n).to_string().as_bytes());
+            }
+        }
+        for _ in 0..r.below(3) {
+            v.push(*r.pick(REG_NAME_CHARS));
+        }
+        if std::str::from_utf8(&v).is_err() {
+            return v;
+        }
+    }
+}
+/// a name token alone, in an array, or as key and value of a dictionary
+fn wrap_name_token(r: &mut Rng, tok: &[u8], tok2: &[u8]) -> Vec<u8> {
+    let mut s = vec![];
+    match r.below(4) {
+        0 => s.extend(tok),
+        1 => {
+            s.extend(b"[");
+            s.extend(tok);
+            s.extend(b" 1 ");
+            s.extend(tok2);
+            s.extend(b"]");
+        }
+        _ => {
+            s.extend(b"<< ");
+            s.extend(tok);
+            s.extend(b" 1 /Z ");
+            s.extend(tok2);
+            s.extend(b" >>");
+        }
+    }
+    s
+}
+/// the Latin-1 view of bytes, as UTF-8 (what a name of invalid bytes becomes as a String)
+fn latin1_as_utf8(b: &[u8]) -> Vec<u8> {
+    b.iter().map(|&c| c as char).collect::<String>().into_bytes()
+}
+
+/// names through the reader after fix_name_utf8: escaped/raw UTF-8 (valid: the String), bytes that are not UTF-8
+/// (Latin-1 view), and two spellings of one String as keys of one dictionary
+const FIXED_LEX_NAMES: &[&[u8]] = &[
+    b"/caf#E9", b"/#C3", b"/#ED#A0#80", b"/#C3#A9", b"/caf#C3#A9", b"/#E4#B8#AD", b"/#F0#9F#98#80", b"/#c3#a9#e4#b8#ad1", b"/#C0#80", b"/#C1#BF",
+    b"/#E0#9F#BF", b"/#E0#A0#80", b"/#ED#9F#BF", b"/#ED#BF#BF", b"/#EE#80#80", b"/#EF#BF#BF", b"/#F0#8F#BF#BF", b"/#F0#90#80#80", b"/#F4#8F#BF#BF",
+    b"/#F4#90#80#80", b"/#F5#80#80#80", b"/#FF", b"/#80", b"/#BF", b"/#C2#80", b"/#DF#BF", b"/#C2", b"/#C2A", b"/#E4#B8", b"/#F0#9F#98", b"/#C3#A9#E9",
+    b"/#E9#C3#A9", b"/caf\xe9", b"/caf\xc3\xa9", b"/\xe4\xb8\xad", b"/\xf0\x9f\x98\x80", b"/\x80x", b"/a\x9fb", b"/\xed\xa0\x80", b"/\xc3#A9", b"/#C3\xa9",
+    b"<< /#E9 1 /#C3#A9 2 >>", b"<< /#C3#A9 1 /#E9 2 >>", b"<< /#E9 1 /#C3#A9 2 /#e9 3 >>", b"[/#C3#A9 /#E9 /#C3#83#C2#A9]", b"<< /#C3#83#C2#A9 1 /#C3#A9 2 >>",
+    b"<< /#ED#A0#80 1 /#C3#AD#C2#A0#C2#80 2 >>", b"[1 0 /#52]", b"[1 0 /R#C3#A9]", b"/#00#C3#A9", b"/#C3#A9#00",
+];
+
 const FIXED_LEX: &[&[u8]] = &[
     b"(a\\053b)", b"(\\53x)", b"(\\5)", b"(\\0053)", b"(\\777)", b"(\\400)", b"(\\18)", b"(\\128)", b"(\\12", b"(a\\\nb)", b"(a\\\r\nb)",
     b"(a\rb)", b"(a\r\nb)", b"(a(b)c)", b"(a\\(b)", b"(()", b"())", b"(\\n\\r\\t\\b\\f\\(\\)\\\\\\q)", b"/A#20B", b"/A#2", b"/A#", b"/A#zz", b"/A#+5", b"/A#-5",
@@ -775,12 +892,13 @@ pub fn run(ctx: &Ctx) {
             };
             let mut budget = b;
             let mut t = gen_tree(&mut r, d, &mut budget);
-            // non-ASCII names are the known class name-nonascii: keep them in one tree out of four
-            if i % 4 != 3 {
+            // one tree in four with ASCII names only; the others keep their non-ASCII names (read back since fix_name_utf8)
+            if i % 4 == 0 {
                 ascii_names_only(&mut t);
                 fix_all_collisions(&mut t);
             }
-            emit_ser(&mut out, &t, &format!("wf_depth{}", depth(&t)));
+            let cls = if has_nonascii_name(&t) { format!("wf_depth{}_utf8names", depth(&t)) } else { format!("wf_depth{}", depth(&t)) };
+            emit_ser(&mut out, &t, &cls);
         }
         // every single char as a one-char string / name (regular ones), all 256 bytes in a hex string
         // every char U+0000..U+017F as a string (alone and after another char) and, when regular, as a name and key
@@ -800,12 +918,39 @@ pub fn run(ctx: &Ctx) {
         for n in ["My Image", "A#20", "A#", "#", "Im{1}", "a(b", "a)b", "x%y", "<<", "[x]", "A/B", " ", "", "()<>[]{}/%#", "a#20b#", "A#+5", "tab\there", "nl\nx", "nul\0x"] {
             emit_ser(&mut out, &T::Dict(vec![(n.to_string(), T::Name(n.to_string())), ("Z".into(), T::Arr(vec![T::Name(n.to_string()), T::Int(1)]))]), "fixed_irregular_names");
         }
-        for kind in ["name-nonascii", "real-ge-2p63", "objnum-gt-9999999", "int-int-nameR"] {
+        // names with 2-, 3- and 4-byte UTF-8 sequences (boundary chars over-weighted), as name, as key, nested
+        let nu = if ctx.thorough() { 300 } else { 60 };
+        for k in 2..=4usize {
+            for _ in 0..nu {
+                let (a, b2) = (gen_utf8_name(&mut r, k), gen_utf8_name(&mut r, k));
+                let t = match r.below(3) {
+                    0 => T::Name(a),
+                    1 => T::Arr(vec![T::Name(a), T::Int(1), T::Name(b2)]),
+                    _ if a != b2 => T::Dict(vec![(a.clone(), T::Name(b2.clone())), (b2, T::Arr(vec![T::Name(a), T::Null]))]),
+                    _ => T::Dict(vec![(a.clone(), T::Name(b2))]),
+                };
+                emit_ser(&mut out, &t, &format!("utf8_names_{k}byte"));
+            }
+        }
+        // every char U+0180..U+07FF (rest of the 2-byte range) and the 3-/4-byte boundary chars as a name and key
+        for base in (0x180u32..0x800).step_by(64) {
+            let names: Vec<String> = (base..base + 64).filter_map(char::from_u32).map(|ch| format!("N{ch}")).collect();
+            emit_ser(&mut out, &T::Dict(names.iter().map(|n| (n.clone(), T::Name(n.clone()))).collect()), "all_2byte_chars_name");
+        }
+        let edges: Vec<String> = [0x800u32, 0xFFF, 0x1000, 0xCFFF, 0xD000, 0xD7FF, 0xE000, 0xFFFD, 0xFFFF, 0x10000, 0x3FFFF, 0x40000, 0xFFFFF, 0x100000, 0x10FFFF]
+            .iter()
+            .filter_map(|c| char::from_u32(*c))
+            .flat_map(|ch| [format!("{ch}"), format!("a{ch}"), format!("{ch} z")])
+            .collect();
+        emit_ser(&mut out, &T::Dict(edges.iter().map(|n| (n.clone(), T::Name(n.clone()))).collect()), "utf8_boundary_chars_name");
+        for _ in 0..nf {
+            let t = flawed_tree(&mut r, "name-nonascii");
+            emit_ser(&mut out, &t, "nonascii_name_trees");
+        }
+        for kind in ["real-ge-2p63", "objnum-gt-9999999", "int-int-nameR"] {
             for _ in 0..nf {
                 let mut t = flawed_tree(&mut r, kind);
-                if kind != "name-nonascii" {
-                    ascii_names_only(&mut t); // exactly one flaw per tree
-                }
+                ascii_names_only(&mut t); // exactly one flaw per tree (kept ASCII as before)
                 emit_ser(&mut out, &t, &format!("known_{kind}"));
             }
         }
@@ -822,6 +967,34 @@ pub fn run(ctx: &Ctx) {
     } else {
         for b in FIXED_LEX {
             emit_lex(&mut out, b, "fixed");
+        }
+        for b in FIXED_LEX_NAMES {
+            emit_lex(&mut out, b, "fixed_names_utf8_and_invalid");
+        }
+        // name tokens by class of their decoded bytes: valid UTF-8 with 2-, 3-, 4-byte sequences; not UTF-8; and two
+        // spellings (invalid bytes / the UTF-8 of their Latin-1 view) of ONE String as keys of one dictionary
+        let mut rn = Rng::new(ctx.seed ^ 0x4A3E);
+        let nn = if ctx.thorough() { 600 } else { 150 };
+        for i in 0..nn {
+            for k in 2..=4usize {
+                let n = gen_utf8_name(&mut rn, k).into_bytes();
+                let (t1, t2) = (name_token(&mut rn, &n), name_token(&mut rn, &n));
+                emit_lex(&mut out, &wrap_name_token(&mut rn, &t1, &t2), &format!("name_utf8_{k}byte"));
+            }
+            let bad = gen_invalid_utf8(&mut rn);
+            let (t1, t2) = (name_token(&mut rn, &bad), name_token(&mut rn, &bad));
+            emit_lex(&mut out, &wrap_name_token(&mut rn, &t1, &t2), "name_invalid_utf8");
+            if i % 3 == 0 {
+                let same = latin1_as_utf8(&bad);
+                let mut s = b"<< ".to_vec();
+                let (a, b2) = (name_token(&mut rn, &bad), name_token(&mut rn, &same));
+                let (x, y) = if rn.chance(1, 2) { (a, b2) } else { (b2, a) };
+                s.extend(x);
+                s.extend(b" 1 ");
+                s.extend(y);
+                s.extend(b" 2 >>");
+                emit_lex(&mut out, &s, "name_key_two_spellings_one_string");
+            }
         }
         let mut r = Rng::new(ctx.seed ^ 0x1E7);
         let n = if ctx.thorough() { 9000 } else { 3000 };
@@ -888,8 +1061,11 @@ pub fn run(ctx: &Ctx) {
                     continue;
                 }
                 emit_incr(&mut out, &t, "ascii_names_any");
+            } else if i % 16 == 0 {
+                // names of any chars (what a parsed file can contain since fix_name_utf8)
+                emit_incr(&mut out, &t, if has_nonascii_name(&t) { "unicode_names" } else { "ascii_names_any" });
             } else {
-                // Latin-1 names only (what a parsed file can contain)
+                // names of chars <= U+00FF (all a parsed file could contain before fix_name_utf8)
                 fn latin(t: &mut T) {
                     let f = |n: &mut String| *n = n.chars().filter(|c| (*c as u32) < 256).collect();
                     match t {
@@ -909,6 +1085,19 @@ pub fn run(ctx: &Ctx) {
                 latin(&mut t);
                 fix_all_collisions(&mut t);
                 emit_incr(&mut out, &t, "latin1_names");
+            }
+        }
+        let nu = if ctx.thorough() { 200 } else { 40 };
+        for k in 2..=4usize {
+            for _ in 0..nu {
+                let (a, b2) = (gen_utf8_name(&mut r, k), gen_utf8_name(&mut r, k));
+                let t = match r.below(3) {
+                    0 => T::Name(a),
+                    1 => T::Arr(vec![T::Name(a), T::Int(1), T::Name(b2)]),
+                    _ if a != b2 => T::Dict(vec![(a.clone(), T::Name(b2.clone())), (b2, T::Arr(vec![T::Name(a), T::Null]))]),
+                    _ => T::Dict(vec![(a.clone(), T::Name(b2))]),
+                };
+                emit_incr(&mut out, &t, &format!("utf8_names_{k}byte"));
             }
         }
     }
